@@ -1,6 +1,6 @@
 Require Import Extraction ExtrOcamlBasic.
 From CrabV Require Import Base.ZInf Scalar.Itv Ir.Syntax Ir.Cfg Dom.ItvEnv Dom.ItvDomain Fix.Wto Fix.Engine
-     Ana.Transformer Ana.FwdItv Ana.InterSyntax Ana.InterTD Ana.InterBU Ana.InterTDRec.
+     Ana.Transformer Ana.FwdItv Ana.InterSyntax Ana.InterTD Ana.InterBU Ana.InterTDRec Ana.InterBURec.
 Extraction Language OCaml.
 Set Extraction KeepSingleton.
 Extraction "../ocaml/gen/inter_model.ml"
@@ -12,5 +12,6 @@ Extraction "../ocaml/gen/inter_model.ml"
   InterTD.td_run InterTD.g_pre InterTD.g_post InterTD.g_err InterTD.g_summaries InterTD.mkSumm
   InterTD.td_validate InterTD.callee_entry InterTD.cont InterTD.cert_ok InterTD.summ_ok InterTD.mk_cert InterTD.chk_block
   InterBU.bu_run InterBU.bu_summaries InterBU.bu_validate
+  InterBURec.bur_run InterBURec.cg_post InterBURec.cg_isrec InterBURec.bur_entries
   InterTDRec.cg_wto InterTDRec.cg_wset InterTDRec.rec_run InterTDRec.rec_run_checked InterTDRec.rec_cfg_okb InterTDRec.r_g InterTDRec.r_fix
   BinNums.Z BinNums.N.
